@@ -257,7 +257,7 @@ pub fn check_term(
                 }
             }
         }
-        if first {
+        if first && (rep.no_sample_yet() || crate::report::fxhash(text.as_bytes()) % 5000 < 2) {
             first = false;
             rep.sample(4, || json!({"term": render_expr(e), "type": ty.render(), "witness": map_json(&wlist), "r2": format!("{:?}", r2.as_ref().map(|v| render_expr(&refmodel::val_expr(v, ty)))), "program": text}));
         }
